@@ -406,6 +406,22 @@ def concretize_type(t, reg: Registry):
         return reg.by_def[key]
     if tag == "stype":
         return _stype_class(t, reg)
+    if tag == "recref":
+        return reg.rec_alias[t[1]]
+    if tag == "rec695":
+        key = jkey(t[:3])
+        if key not in reg.by_def:
+            # `type Tree = Leaf | list[Tree]`: the value of a PEP 695 alias is evaluated lazily, so it may mention the alias itself
+            pyname = reg._pyname(t[1])
+            if not hasattr(reg, "rec_alias"):
+                reg.rec_alias = {}
+            reg.module.__dict__[pyname + "__value"] = lambda _b=t[2], _r=reg: concretize_type(_b, _r)
+            exec(f"type {pyname} = {pyname}__value()", reg.module.__dict__)
+            alias = reg.module.__dict__[pyname]
+            reg.rec_alias[t[1]] = alias
+            reg.by_def[key] = alias
+            alias.__value__                      # (evaluate now: the classes named in the body are built with this universe)
+        return reg.by_def[key]
     if tag == "alias695":
         key = jkey(t)
         if key not in reg.by_def:
